@@ -269,8 +269,8 @@ class SyncInterpreter(BaseInterpreter[TContext, TEvent]):
                 self._actors.pop(actor_id, None)
 
         # 2️⃣ Cancel all `after` timers by signaling their cancellation events
-        for state_id in list(self._after_events.keys()):
-            self._after_events[state_id].set()
+        for cancel_event in list(self._after_events.values()):
+            cancel_event.set()
         self._after_events.clear()
         self._after_threads.clear()
 
@@ -1255,7 +1255,11 @@ class SyncInterpreter(BaseInterpreter[TContext, TEvent]):
                     key,
                     state.id,
                 )
-                self._after_events[key].set()  # signal cancellation
+                # 🧵 The timer thread removes its own entry when it ends, so
+                #    the key may already be gone.
+                pending = self._after_events.get(key)
+                if pending is not None:
+                    pending.set()  # signal cancellation
             finally:
                 # Remove from tracking dicts whether the thread is alive or not;
                 # the thread cleans itself up on exit as well.
